@@ -571,6 +571,34 @@ func (tt *TermTable) Bin(op Op, a, b *Term) *Term {
 			}
 			return tt.SExt(tt.Extract(a, w-1, c), c)
 		}
+	case OSDiv, OSRem:
+		// (x*c1) / c2 and (x*c1) % c2 with c1 | c2 and no overflow possible (x small, non-negative)
+		if b.IsConst() && w == 64 && a.op == OMul && a.args[1].IsConst() && a.args[1].cval != 0 && b.cval != 0 &&
+			int64(b.cval) > 0 && int64(a.args[1].cval) > 0 && b.cval%a.args[1].cval == 0 {
+			x, c1 := a.args[0], a.args[1].cval
+			if _, hi, ok := urange(x); ok && hi < (uint64(1)<<62)/c1 {
+				q := b.cval / c1
+				if op == OSDiv {
+					if q == 1 {
+						return x
+					}
+					return tt.Bin(OSDiv, x, tt.BV(w, q))
+				}
+				if q == 1 {
+					return tt.BV(w, 0)
+				}
+				return tt.Bin(OMul, tt.Bin(OSRem, x, tt.BV(w, q)), tt.BV(w, c1))
+			}
+		}
+		// signed division of a provably non-negative value by a positive constant is unsigned
+		if b.IsConst() && w == 64 && int64(b.cval) > 0 {
+			if _, hi, ok := urange(a); ok && hi < uint64(1)<<62 {
+				if op == OSDiv {
+					return tt.Bin(OUDiv, a, b)
+				}
+				return tt.Bin(OURem, a, b)
+			}
+		}
 	case OUDiv, OURem:
 		if b.IsConst() && w <= 64 && b.cval != 0 && (b.cval&(b.cval-1)) == 0 {
 			k := bits.TrailingZeros64(b.cval)
@@ -971,6 +999,16 @@ func urange(t *Term) (lo, hi uint64, ok bool) {
 				return 0, h, true
 			}
 			return 0, mask(iw), true
+		}
+	case OUDiv:
+		if t.args[1].IsConst() && t.args[1].cval != 0 {
+			if l, h, ok := urange(t.args[0]); ok {
+				return l / t.args[1].cval, h / t.args[1].cval, true
+			}
+		}
+	case OURem:
+		if t.args[1].IsConst() && t.args[1].cval != 0 {
+			return 0, t.args[1].cval - 1, true
 		}
 	case OIte:
 		l1, h1, ok1 := urange(t.args[1])
